@@ -74,7 +74,9 @@ fn run_manager_case(out: &mut Out, id0: u64, start0: u64, duration: u64, t0: u64
             MEv::Create { sender, bad } => {
                 for i in bad { w.set_fail(*i, true); }
                 let mgr = w.mgr.clone();
-                let r = run_catch(|| w.app.execute_contract(Addr::unchecked(SENDERS[*sender]), mgr, &em::ExecuteMsg::CreateEpoch {}, &[]), classify);
+                // senders 4..6 are the hook contracts themselves (a hooked contract cranking the clock): CreateEpoch is open to anyone
+                let who = if *sender < 4 { Addr::unchecked(SENDERS[*sender]) } else { w.hooks[(*sender - 4) % 3].clone() };
+                let r = run_catch(|| w.app.execute_contract(who, mgr, &em::ExecuteMsg::CreateEpoch {}, &[]), classify);
                 for i in bad { w.set_fail(*i, false); }
                 (format!("MCreate {}", zlist(bad)), r)
             }
@@ -212,7 +214,8 @@ fn gen_manager(out: &mut Out, rng: &mut Rng) {
             _ => {
                 let bad = if rng.chance(1, 6) { vec![rng.below(3) as usize] } else { vec![] };
                 if bad.is_empty() && (t as u128) >= start as u128 + duration as u128 { start = start.saturating_add(duration); }
-                MEv::Create { sender: rng.below(4) as usize, bad }
+                let sd = rng.below(4) as usize;
+                MEv::Create { sender: if sd > 0 && t % 3 == 0 { 3 + sd } else { sd }, bad }
             }
         };
         evs.push((t, e));
@@ -333,6 +336,8 @@ fn corpus(out: &mut Out) {
         (t0 + 1_000 + d, MEv::Create { sender: 2, bad: vec![] }),
         (t0 + 1_000 + d, MEv::Create { sender: 3, bad: vec![] }),
         (t0 + 1_000 + d, MEv::Add { sender: 0, h: 2 }),
+        (t0 + 1_000 + 2 * d, MEv::Create { sender: 4, bad: vec![] }),      // sent by hook contract 0 itself (registered)
+        (t0 + 1_000 + 3 * d, MEv::Create { sender: 6, bad: vec![] }),      // sent by hook contract 2 itself (registered)
         (t0 + 1_000 + 5 * d + 7, MEv::Create { sender: 0, bad: vec![2] }),
         (t0 + 1_000 + 5 * d + 7, MEv::Create { sender: 0, bad: vec![] }),
         (t0 + 1_000 + 5 * d + 7, MEv::Create { sender: 1, bad: vec![] }),
